@@ -54,6 +54,20 @@ def applied(term, what):
     return False
 
 
+def lambdify_calls(term, out=None):
+    """the positional argument tuples of every sympy.lambdify call inside the term"""
+    out = [] if out is None else out
+    if isinstance(term, Sym):
+        if term.tag == "call" and "lambdify" in repr(term.args[0]) and not (isinstance(term.args[0], Sym) and term.args[0].tag == "call") and len(term.args) >= 2 and isinstance(term.args[1], tuple):
+            out.append(term.args[1])
+        for a in term.args:
+            lambdify_calls(a, out)
+    elif isinstance(term, (tuple, list)):
+        for a in term:
+            lambdify_calls(a, out)
+    return out
+
+
 SEMANTIC_MEMBERS = ("array", "grad", "eval", "function", "__call__")      # dagger overrides are C02's subject
 
 
@@ -125,6 +139,10 @@ def check_rebuilds(ctx):
                         xd, yd = x.attrs.get("_data"), y.attrs.get("_data")
                         if xd is not None and not (contains(yd, xd) and applied(yd, meth)):
                             bad.setdefault("data", (label, oracle, "data was %r, rebuilt with %r" % (xd, yd)))
+                        elif xd is not None and meth == "lambdify":
+                            for pos in lambdify_calls(yd):          # sympy.lambdify(symbols, expression): the symbols first
+                                if len(pos) >= 2 and contains(pos[0], xd) and not contains(pos[1], xd):
+                                    bad.setdefault("data", (label, oracle, "lambdify called with the data where the symbols belong: %r" % (pos[:2],)))
             except SimUnsupported as e:
                 raise AnalysisError("%s.%s outside the recognised idioms: %s" % (c.q, meth, e))
             if cases == 0:
